@@ -4,15 +4,15 @@
  * to, which generated nonce it holds, and whether each randomness buffer is all-zero. */
 #define MN_OBJ 4
 #define MN_BUF 4
-#define MN_KEY 4   /* keys 0..NKey-1, twin of key 0 at index nkey */
+#define MN_KEY 4   /* keys 0..NKey-1; twin of key 0 (same x, opposite y) at index nkey; endomorphism image of key 0 (same y, x*beta) at nkey+1 */
 #define MN_IDS 64
 static struct {
     int nkey;
-    unsigned char sk[MN_KEY + 1][32];
-    secp256k1_keypair kp[MN_KEY + 1];
-    secp256k1_pubkey pk[MN_KEY + 1];
+    unsigned char sk[MN_KEY + 2][32];
+    secp256k1_keypair kp[MN_KEY + 2];
+    secp256k1_pubkey pk[MN_KEY + 2];
     secp256k1_keypair kp_other; secp256k1_pubkey pk_other;
-    secp256k1_musig_keyagg_cache cache[MN_KEY + 1];
+    secp256k1_musig_keyagg_cache cache[MN_KEY + 2];
     secp256k1_musig_secnonce obj[MN_OBJ];
     unsigned char buf[MN_BUF][32];
     /* per generated nonce */
@@ -43,9 +43,13 @@ static void op_MnSetup(const jv *in, jout *out) {
     for (i = 0; i < MN.nkey; i++) { memset(MN.sk[i], 0, 32); MN.sk[i][31] = (unsigned char)(11 + 2 * i); MN.sk[i][0] = 0x01; }
     memcpy(MN.sk[MN.nkey], MN.sk[0], 32);
     if (!secp256k1_ec_seckey_negate(CTX, MN.sk[MN.nkey])) exit(3);   /* twin: same x, opposite y */
+    { static const unsigned char lambda[32] = { 0x53,0x63,0xad,0x4c,0xc0,0x5c,0x30,0xe0,0xa5,0x26,0x1c,0x02,0x88,0x12,0x64,0x5a,
+                                                 0x12,0x2e,0x22,0xea,0x20,0x81,0x66,0x78,0xdf,0x02,0x96,0x7c,0x1b,0x23,0xbd,0x72 };
+      memcpy(MN.sk[MN.nkey + 1], MN.sk[0], 32);
+      if (!secp256k1_ec_seckey_tweak_mul(CTX, MN.sk[MN.nkey + 1], lambda)) exit(3); }   /* lambda*d: public key (beta*x, y) -- same y, other x */
     memset(osk, 0x33, 32);
     if (!secp256k1_keypair_create(CTX, &MN.kp_other, osk) || !secp256k1_keypair_pub(CTX, &MN.pk_other, &MN.kp_other)) exit(3);
-    for (i = 0; i <= MN.nkey; i++) {
+    for (i = 0; i <= MN.nkey + 1; i++) {
         const secp256k1_pubkey *pks[2];
         if (!secp256k1_keypair_create(CTX, &MN.kp[i], MN.sk[i]) || !secp256k1_keypair_pub(CTX, &MN.pk[i], &MN.kp[i])) exit(3);
         pks[0] = &MN.pk[i]; pks[1] = &MN.pk_other;
@@ -69,7 +73,7 @@ static void mn_projection(jout *out) {
         const char *c = mn_class(&MN.obj[o]); int id = -1, bound = -1;
         if (c[0] == 'l') {
             for (i = 0; i < MN.nids; i++) if (!memcmp(MN.kbytes[i], &MN.obj[o].data[4], 64)) id = i + 1;
-            for (k = 0; k <= MN.nkey; k++) {
+            for (k = 0; k <= MN.nkey + 1; k++) {
                 secp256k1_ge ge; unsigned char gb[64];
                 secp256k1_pubkey_load(CTX, &ge, &MN.pk[k]); secp256k1_ge_to_bytes(gb, &ge);
                 if (!memcmp(gb, &MN.obj[o].data[68], 64)) bound = k;
